@@ -519,6 +519,12 @@ Lemma D_g0 (phi : R) : Derive (fun x : R => g0 x) phi = dg0 phi.
 Proof. apply is_derive_unique, g0_derive. Qed.
 Lemma ng_split phi h : normal_gravity phi h = g0 phi * (1 - 2 * h / A_).
 Proof. reflexivity. Qed.
+(* the VD right-hand side with normal gravity written as g0(phi) (1 - 2 h / a): convertible to nav_rhs_VD *)
+Definition nav_rhs_VD' (lat lon alt VN VE VD C00 C01 C02 C10 C11 C12 C20 C21 C22 w0 w1 w2 f0 f1 f2 : R) : R :=
+  dot3 C20 C21 C22 f0 f1 f2 + g0 (lat * d2r) * (1 - 2 * alt / A_)
+  - cross2 (nav_cor_N lat alt VN VE) (nav_cor_E lat alt VN VE) (nav_cor_D lat alt VN VE) VN VE VD.
+Lemma nav_rhs_VD_g0 : nav_rhs_VD = nav_rhs_VD'.
+Proof. reflexivity. Qed.
 
 (** * 6. The generated F in the vocabulary of the specification
 
@@ -626,10 +632,16 @@ Ltac zero_norm :=
   repeat (progress rewrite ?Rmult_0_l, ?Rmult_0_r, ?Ropp_0, ?Rplus_0_r, ?Rminus_0_r, ?Rmult_1_l, ?Rplus_0_l).
 
 Ltac side_known :=
-  repeat split; trivial;
-  try (eexists; apply nav_Rn_derive); try (eexists; apply nav_Re_derive); try (eexists; apply g0_derive);
-  try (apply Rgt_not_eq; assumption);
-  try (apply Rgt_not_eq, Rmult_lt_0_compat; assumption).
+  repeat match goal with
+  | |- _ /\ _ => split
+  | |- True => exact I
+  | |- ex_derive (fun x => nav_Rn x) _ => eexists; apply nav_Rn_derive
+  | |- ex_derive (fun x => nav_Re x) _ => eexists; apply nav_Re_derive
+  | |- ex_derive (fun x => g0 x) _ => eexists; apply g0_derive
+  | |- A_ <> 0 => unfold A_; lra
+  | |- _ <> 0 => first [ apply Rgt_not_eq; assumption
+                       | apply Rgt_not_eq, Rmult_lt_0_compat; assumption ]
+  end.
 
 Ltac unf_errdyn :=
   unfold errdyn, errdyn0, errdyn1, errdyn2, errdyn3, errdyn4, errdyn5, errdyn6, errdyn7, errdyn8;
@@ -678,7 +690,8 @@ Ltac row_intro :=
   set (dl_C02 := pd_v0 C02 C12 C22 0 0 0 x6 x7 x8);
   set (dl_C12 := pd_v1 C02 C12 C22 0 0 0 x6 x7 x8);
   set (dl_C22 := pd_v2 C02 C12 C22 0 0 0 x6 x7 x8);
-  unf_pd; unf_nav; rewrite ?ng_split; unfold tan.
+  change nav_rhs_VD with nav_rhs_VD'; unfold nav_rhs_VD';
+  unf_pd; unf_nav; unfold tan.
 
 Ltac row_main :=
   zero_norm; rewrite ?D_Rn, ?D_Re, ?D_g0;
@@ -696,60 +709,170 @@ Ltac row_tac lat alt :=
 
 Lemma row_lat : forall s roll pitch heading m x, dom s ->
   is_derive (lin nav_rhs_lat s_lat s m x) 0 (s_lat (pdelta s (errdyn s roll pitch heading x))).
-Proof. Time row_tac lat alt. Qed.
+Proof. row_tac lat alt. Qed.
 
 Lemma row_lon : forall s roll pitch heading m x, dom s ->
   is_derive (lin nav_rhs_lon s_lon s m x) 0 (s_lon (pdelta s (errdyn s roll pitch heading x))).
-Proof. Time row_tac lat alt. Qed.
+Proof. row_tac lat alt. Qed.
 
 Lemma row_alt : forall s roll pitch heading m x, dom s ->
   is_derive (lin nav_rhs_alt s_alt s m x) 0 (s_alt (pdelta s (errdyn s roll pitch heading x))).
-Proof. Time row_tac lat alt. Qed.
+Proof. row_tac lat alt. Qed.
 
 Lemma row_VN : forall s roll pitch heading m x, dom s ->
   is_derive (lin nav_rhs_VN s_VN s m x) 0 (s_VN (pdelta s (errdyn s roll pitch heading x))).
-Proof. Time row_tac lat alt. Qed.
+Proof. row_tac lat alt. Qed.
 
 Lemma row_VE : forall s roll pitch heading m x, dom s ->
   is_derive (lin nav_rhs_VE s_VE s m x) 0 (s_VE (pdelta s (errdyn s roll pitch heading x))).
-Proof. Time row_tac lat alt. Qed.
+Proof. row_tac lat alt. Qed.
 
 Lemma row_VD : forall s roll pitch heading m x, dom s ->
   is_derive (lin nav_rhs_VD s_VD s m x) 0 (s_VD (pdelta s (errdyn s roll pitch heading x))).
-Proof. Time row_tac lat alt. Qed.
+Proof. row_tac lat alt. Qed.
 
 Lemma row_C00 : forall s roll pitch heading m x, dom s ->
   is_derive (lin nav_rhs_C00 s_C00 s m x) 0 (s_C00 (pdelta s (errdyn s roll pitch heading x))).
-Proof. Time row_tac lat alt. Qed.
+Proof. row_tac lat alt. Qed.
 
 Lemma row_C01 : forall s roll pitch heading m x, dom s ->
   is_derive (lin nav_rhs_C01 s_C01 s m x) 0 (s_C01 (pdelta s (errdyn s roll pitch heading x))).
-Proof. Time row_tac lat alt. Qed.
+Proof. row_tac lat alt. Qed.
 
 Lemma row_C02 : forall s roll pitch heading m x, dom s ->
   is_derive (lin nav_rhs_C02 s_C02 s m x) 0 (s_C02 (pdelta s (errdyn s roll pitch heading x))).
-Proof. Time row_tac lat alt. Qed.
+Proof. row_tac lat alt. Qed.
 
 Lemma row_C10 : forall s roll pitch heading m x, dom s ->
   is_derive (lin nav_rhs_C10 s_C10 s m x) 0 (s_C10 (pdelta s (errdyn s roll pitch heading x))).
-Proof. Time row_tac lat alt. Qed.
+Proof. row_tac lat alt. Qed.
 
 Lemma row_C11 : forall s roll pitch heading m x, dom s ->
   is_derive (lin nav_rhs_C11 s_C11 s m x) 0 (s_C11 (pdelta s (errdyn s roll pitch heading x))).
-Proof. Time row_tac lat alt. Qed.
+Proof. row_tac lat alt. Qed.
 
 Lemma row_C12 : forall s roll pitch heading m x, dom s ->
   is_derive (lin nav_rhs_C12 s_C12 s m x) 0 (s_C12 (pdelta s (errdyn s roll pitch heading x))).
-Proof. Time row_tac lat alt. Qed.
+Proof. row_tac lat alt. Qed.
 
 Lemma row_C20 : forall s roll pitch heading m x, dom s ->
   is_derive (lin nav_rhs_C20 s_C20 s m x) 0 (s_C20 (pdelta s (errdyn s roll pitch heading x))).
-Proof. Time row_tac lat alt. Qed.
+Proof. row_tac lat alt. Qed.
 
 Lemma row_C21 : forall s roll pitch heading m x, dom s ->
   is_derive (lin nav_rhs_C21 s_C21 s m x) 0 (s_C21 (pdelta s (errdyn s roll pitch heading x))).
-Proof. Time row_tac lat alt. Qed.
+Proof. row_tac lat alt. Qed.
 
 Lemma row_C22 : forall s roll pitch heading m x, dom s ->
   is_derive (lin nav_rhs_C22 s_C22 s m x) 0 (s_C22 (pdelta s (errdyn s roll pitch heading x))).
-Proof. Time row_tac lat alt. Qed.
+Proof. row_tac lat alt. Qed.
+
+(** * 8. Assembly *)
+
+(** s + u P(s) x is the perturbed state for the error u x (the chart is linear in x) *)
+Lemma mkS_ext : forall a0 a1 a2 a3 a4 a5 a6 a7 a8 a9 a10 a11 a12 a13 a14 b0 b1 b2 b3 b4 b5 b6 b7 b8 b9 b10 b11 b12 b13 b14 : R,
+  a0 = b0 -> a1 = b1 -> a2 = b2 -> a3 = b3 -> a4 = b4 -> a5 = b5 -> a6 = b6 -> a7 = b7 -> a8 = b8 -> a9 = b9 -> a10 = b10 -> a11 = b11 -> a12 = b12 -> a13 = b13 -> a14 = b14 -> mkS a0 a1 a2 a3 a4 a5 a6 a7 a8 a9 a10 a11 a12 a13 a14 = mkS b0 b1 b2 b3 b4 b5 b6 b7 b8 b9 b10 b11 b12 b13 b14.
+Proof. intros; subst; reflexivity. Qed.
+
+Lemma pert_scale : forall s x u, pert s (xscale u x) = sadd s u (pdelta s x).
+Proof.
+  intros s x u. destruct s, x. unfold pert, sadd, pdelta, xscale.
+  cbn [s_lat s_lon s_alt s_VN s_VE s_VD s_C00 s_C01 s_C02 s_C10 s_C11 s_C12 s_C20 s_C21 s_C22
+       e0 e1 e2 e3 e4 e5 e6 e7 e8].
+  unfold pd_lat, pd_lon, pd_alt, pd_v0, pd_v1, pd_v2, cross0, cross1, cross2, Rdiv.
+  apply mkS_ext; ring.
+Qed.
+
+Lemma errdyn_is_linearisation : forall s roll pitch heading m x, dom s ->
+  is_derive (lin nav_rhs_lat s_lat s m x) 0 (s_lat (pdelta s (errdyn s roll pitch heading x))) /\
+  is_derive (lin nav_rhs_lon s_lon s m x) 0 (s_lon (pdelta s (errdyn s roll pitch heading x))) /\
+  is_derive (lin nav_rhs_alt s_alt s m x) 0 (s_alt (pdelta s (errdyn s roll pitch heading x))) /\
+  is_derive (lin nav_rhs_VN s_VN s m x) 0 (s_VN (pdelta s (errdyn s roll pitch heading x))) /\
+  is_derive (lin nav_rhs_VE s_VE s m x) 0 (s_VE (pdelta s (errdyn s roll pitch heading x))) /\
+  is_derive (lin nav_rhs_VD s_VD s m x) 0 (s_VD (pdelta s (errdyn s roll pitch heading x))) /\
+  is_derive (lin nav_rhs_C00 s_C00 s m x) 0 (s_C00 (pdelta s (errdyn s roll pitch heading x))) /\
+  is_derive (lin nav_rhs_C01 s_C01 s m x) 0 (s_C01 (pdelta s (errdyn s roll pitch heading x))) /\
+  is_derive (lin nav_rhs_C02 s_C02 s m x) 0 (s_C02 (pdelta s (errdyn s roll pitch heading x))) /\
+  is_derive (lin nav_rhs_C10 s_C10 s m x) 0 (s_C10 (pdelta s (errdyn s roll pitch heading x))) /\
+  is_derive (lin nav_rhs_C11 s_C11 s m x) 0 (s_C11 (pdelta s (errdyn s roll pitch heading x))) /\
+  is_derive (lin nav_rhs_C12 s_C12 s m x) 0 (s_C12 (pdelta s (errdyn s roll pitch heading x))) /\
+  is_derive (lin nav_rhs_C20 s_C20 s m x) 0 (s_C20 (pdelta s (errdyn s roll pitch heading x))) /\
+  is_derive (lin nav_rhs_C21 s_C21 s m x) 0 (s_C21 (pdelta s (errdyn s roll pitch heading x))) /\
+  is_derive (lin nav_rhs_C22 s_C22 s m x) 0 (s_C22 (pdelta s (errdyn s roll pitch heading x))).
+Proof.
+  intros s roll pitch heading m x H. splits.
+  - apply row_lat; exact H.
+  - apply row_lon; exact H.
+  - apply row_alt; exact H.
+  - apply row_VN; exact H.
+  - apply row_VE; exact H.
+  - apply row_VD; exact H.
+  - apply row_C00; exact H.
+  - apply row_C01; exact H.
+  - apply row_C02; exact H.
+  - apply row_C10; exact H.
+  - apply row_C11; exact H.
+  - apply row_C12; exact H.
+  - apply row_C20; exact H.
+  - apply row_C21; exact H.
+  - apply row_C22; exact H.
+Qed.
+
+Lemma sensor_coupling_exact : forall s roll pitch heading m d, att_is s roll pitch heading ->
+  is_derive (linB nav_rhs_lat s m d) 0 (s_lat (pdelta s (sens s roll pitch heading d))) /\
+  is_derive (linB nav_rhs_lon s m d) 0 (s_lon (pdelta s (sens s roll pitch heading d))) /\
+  is_derive (linB nav_rhs_alt s m d) 0 (s_alt (pdelta s (sens s roll pitch heading d))) /\
+  is_derive (linB nav_rhs_VN s m d) 0 (s_VN (pdelta s (sens s roll pitch heading d))) /\
+  is_derive (linB nav_rhs_VE s m d) 0 (s_VE (pdelta s (sens s roll pitch heading d))) /\
+  is_derive (linB nav_rhs_VD s m d) 0 (s_VD (pdelta s (sens s roll pitch heading d))) /\
+  is_derive (linB nav_rhs_C00 s m d) 0 (s_C00 (pdelta s (sens s roll pitch heading d))) /\
+  is_derive (linB nav_rhs_C01 s m d) 0 (s_C01 (pdelta s (sens s roll pitch heading d))) /\
+  is_derive (linB nav_rhs_C02 s m d) 0 (s_C02 (pdelta s (sens s roll pitch heading d))) /\
+  is_derive (linB nav_rhs_C10 s m d) 0 (s_C10 (pdelta s (sens s roll pitch heading d))) /\
+  is_derive (linB nav_rhs_C11 s m d) 0 (s_C11 (pdelta s (sens s roll pitch heading d))) /\
+  is_derive (linB nav_rhs_C12 s m d) 0 (s_C12 (pdelta s (sens s roll pitch heading d))) /\
+  is_derive (linB nav_rhs_C20 s m d) 0 (s_C20 (pdelta s (sens s roll pitch heading d))) /\
+  is_derive (linB nav_rhs_C21 s m d) 0 (s_C21 (pdelta s (sens s roll pitch heading d))) /\
+  is_derive (linB nav_rhs_C22 s m d) 0 (s_C22 (pdelta s (sens s roll pitch heading d))).
+Proof.
+  intros s roll pitch heading m d H. splits.
+  - apply B_lat; exact H.
+  - apply B_lon; exact H.
+  - apply B_alt; exact H.
+  - apply B_VN; exact H.
+  - apply B_VE; exact H.
+  - apply B_VD; exact H.
+  - apply B_C00; exact H.
+  - apply B_C01; exact H.
+  - apply B_C02; exact H.
+  - apply B_C10; exact H.
+  - apply B_C11; exact H.
+  - apply B_C12; exact H.
+  - apply B_C20; exact H.
+  - apply B_C21; exact H.
+  - apply B_C22; exact H.
+Qed.
+
+(** errdyn = generated model + explicit remainder, and the generated model in the specification's vocabulary *)
+Lemma errdyn_split : forall s roll pitch heading x,
+  errdyn0 s roll pitch heading x = model0 s roll pitch heading x + negl0 s x /\
+  errdyn1 s roll pitch heading x = model1 s roll pitch heading x + negl1 s x /\
+  errdyn2 s roll pitch heading x = model2 s roll pitch heading x + negl2 s x /\
+  errdyn3 s roll pitch heading x = model3 s roll pitch heading x + negl3 s x /\
+  errdyn4 s roll pitch heading x = model4 s roll pitch heading x + negl4 s x /\
+  errdyn5 s roll pitch heading x = model5 s roll pitch heading x + negl5 s x /\
+  errdyn6 s roll pitch heading x = model6 s roll pitch heading x + negl6 s x /\
+  errdyn7 s roll pitch heading x = model7 s roll pitch heading x + negl7 s x /\
+  errdyn8 s roll pitch heading x = model8 s roll pitch heading x + negl8 s x.
+Proof. intros. splits; reflexivity. Qed.
+
+Lemma model_in_spec_terms : forall s roll pitch heading x,
+  model0 s roll pitch heading x = sm0 s x /\ model1 s roll pitch heading x = sm1 s x /\
+  model2 s roll pitch heading x = sm2 s x /\ model3 s roll pitch heading x = sm3 s x /\
+  model4 s roll pitch heading x = sm4 s x /\ model5 s roll pitch heading x = sm5 s x /\
+  model6 s roll pitch heading x = sm6 s x /\ model7 s roll pitch heading x = sm7 s x /\
+  model8 s roll pitch heading x = sm8 s x.
+Proof.
+  intros. splits; [apply model0_spec|apply model1_spec|apply model2_spec|apply model3_spec|apply model4_spec
+    |apply model5_spec|apply model6_spec|apply model7_spec|apply model8_spec].
+Qed.
